@@ -24,6 +24,9 @@ CLAIMS = {
  "C10": ("Structural clauses only: the shared countdown field is accessed under its lock after publication (lock-set dataflow), pre-publication accesses cannot follow a send; no dereference of the shared record after the countdown's unlock (the clause 'does not touch the caller's memory afterwards'); the heap record of the completion form is freed/handed over on every path; per-target sent/failed accounting and returned failure count; single completion site guarded by zero that frees after the user callback; one-by-one token order. Once-per-thread / completion-after-all under interleavings is NOT decided.",
          "Trusts clang 14 CFG, pthread mutex semantics, tpt_msg_send returning 0 = ownership transferred.",
          "static analysis: lock-set dataflow, reachability after release point, path enumeration for ownership and accounting"),
+ "C06": ("Structural clauses only, Linux/epoll branch (the kqueue branch is not compiled here): timer unit-conversion constants coherent for s/ms/us/ns; registrations reach tpt_ev_post only after tpt_ev_validate returned 0; validator exhaustive over event kinds with failing default, per-kind fflags mask equals the defined flags, foreign set-flags and ONESHOT+DISPATCH refused; programmed value definitely assigned; DISABLED gate / one-shot forget / dispatch mark / EOF / ERROR stores on every path to the callback; interval zero iff one-shot; ABSTIME<->clock agreement; descriptors closed on failing paths; tpdata bit fields disjoint. Firing behaviour over registration histories is NOT decided.",
+         "Trusts clang 14 CFG; constants evaluated by the compiler in a probe unit with the real flags; documented epoll/timerfd semantics.",
+         "static analysis: constant extraction from case arms, guard evaluation over finite flag domains, cut-set reachability, path enumeration, compile-time probes"),
  "C07": ("Pad-wiping clause decided completely (k_ipad, k_opad, inner context wiped on every path; every local HMAC context reaches its final); no context read after final; RFC 2104 skeleton (strict block comparison, zero padding, 0x36/0x5c over whole block, inner/outer order). MAC equality is NOT decided.",
          "Trusts clang 14 CFG, typestate dataflow in rules/r_ts.py; *_final wiping its context is C04's obligation.",
          "static analysis: typestate dataflow + post-dominance + structural skeleton match"),
